@@ -131,6 +131,37 @@ def rule_keycomp(ctx):
     return r
 
 
+def _canonical_table(m, name, depth=0):
+    """follow module-level aliases ``A = B`` to the table actually created"""
+    vals = m.assigns.get(name, [])
+    if depth < 5 and len(vals) == 1 and isinstance(vals[0], ast.Name) and vals[0].id in m.assigns:
+        return _canonical_table(m, vals[0].id, depth + 1)
+    return name
+
+
+def rule_keyspace(ctx):
+    r = RuleResult("C13-KEYSPACE", "one kind of value per cache table", 2)
+    groups = {}
+    for f, cname, trynode, keyexpr, build in cache_sites(ctx):
+        if not _is_data_cache(ctx, f, cname):
+            continue
+        canon = _canonical_table(f.module, cname)
+        groups.setdefault((f.module.path, canon), []).append((f, cname, build))
+    for (path, canon), sites in sorted(groups.items()):
+        builders = sorted({dotted(b.func) or "?" for _, _, b in sites})
+        key = f"{path}::{canon}::C13-KEYSPACE"
+        if len(builders) > 1:
+            f, cname, b = sites[-1]
+            r.violation(key, C.loc(f, b), f"the table `{canon}` is filled with the results of "
+                        f"different builders {builders} under keys from the same key function: "
+                        "a path query and an expression query for the same contraction collide "
+                        "and receive each other's cached object",
+                        names=sorted({c for _, c, _ in sites}))
+        else:
+            r.ok(key, C.loc(sites[0][0], sites[0][2]), f"filled only by {builders[0]}(...)")
+    return r
+
+
 def _carriers(ctx, f, e, depth=0, seen=None):
     """(params carried injectively, lossy functions met) of expression e"""
     seen = seen or set()
@@ -631,5 +662,5 @@ def rule_hidden(ctx):
     return r
 
 
-RULES = [rule_keycomp, rule_keyinj, rule_unhash, rule_memo, rule_stateless, rule_whitelist,
-         rule_dispatch, rule_hidden]
+RULES = [rule_keycomp, rule_keyinj, rule_keyspace, rule_unhash, rule_memo, rule_stateless,
+         rule_whitelist, rule_dispatch, rule_hidden]
